@@ -93,6 +93,8 @@ pub struct Run {
     pub rule: String,
     pub notes: Vec<String>,
     pub extra: BTreeMap<String, serde_json::Value>,
+    /// oracle failures are also appended here as they occur, so that they survive a hang or crash
+    live: Option<std::fs::File>,
 }
 
 fn fnv(s: &str) -> u64 {
@@ -120,7 +122,12 @@ impl Run {
             rule: String::new(),
             notes: vec![],
             extra: BTreeMap::new(),
+            live: None,
         }
+    }
+    pub fn set_live_dir(&mut self, out_dir: &str) {
+        let _ = std::fs::create_dir_all(out_dir);
+        self.live = std::fs::File::create(format!("{}/oracle_live.jsonl", out_dir)).ok();
     }
     pub fn rng(&self, stream: &str) -> Rng {
         Rng::new(self.seed, &format!("{}/{}", self.prop, stream))
@@ -159,6 +166,10 @@ impl Run {
     pub fn oracle_fail(&mut self, sig: &str, detail: String) {
         self.count(&format!("oracle_fail:{}", sig));
         if self.oracle_failures.len() < 200 {
+            if let Some(f) = self.live.as_mut() {
+                let _ = writeln!(f, "{}", json!({"sig": sig, "detail": detail}));
+                let _ = f.flush();
+            }
             self.oracle_failures.push(OracleFailure { sig: sig.to_owned(), detail });
         }
     }
